@@ -1,6 +1,6 @@
 (* C09 — property theorems.  Only statements, [exact lemma] and Print Assumptions. *)
 From Coq Require Import ZArith List.
-From FV Require Import Lib.RustInt C09.Model C09.Proofs.
+From FV Require Import Lib.RustInt C09.Model C09.Proofs C09.Proofs2 C09.Proofs3.
 Import ListNotations.
 Open Scope Z_scope.
 
@@ -43,8 +43,67 @@ Proof. exact simple_roundtrip. Qed.
 Theorem c09_pad_even : forall before l, (before + zlen (pad2 before l)) mod 2 = 0.
 Proof. exact pad2_total_even. Qed.
 
+(* LocaFormat::new: short chosen => every offset bounded by the last one (as the builder's prefix sums
+   are) is even, <= 0x1FFFE, and `2 * ((off >> 1) as u16) = off` *)
+Theorem c09_loca_short_exact : forall offs, loca_is_long offs = false ->
+  Forall (fun o => 0 <= o <= last offs 0) offs ->
+  Forall (fun o => o mod 2 = 0 /\ o <= 131070 /\ 2 * (Z.shiftr o 1 mod 65536) = o) offs.
+Proof. exact loca_short_exact. Qed.
+(* whichever format is chosen, Loca::get_raw returns the offsets that were written *)
+Theorem c09_loca_roundtrip : forall offs,
+  Forall (fun o => u32 o /\ o <= last offs 0) offs ->
+  exists es, loca_read (loca_bytes offs) (loca_is_long offs) = Some es /\
+    forall i, (i < length offs)%nat -> get_raw es (loca_is_long offs) (Z.of_nat i) = Some (nth i offs 0).
+Proof. exact loca_roundtrip. Qed.
+(* glyph i of (glyf, loca) is the i-th glyph added, for any glyph sequence and whichever format the
+   builder chooses: get_glyf's slice is exactly the stand-alone encoding of that glyph (the bytes that
+   c09_simple_roundtrip decodes); a glyph that writes nothing gets equal consecutive offsets (Ok(None)) *)
+Theorem c09_builder_glyph_i : forall gs glyf loca long,
+  build gs = Some (glyf, loca, long) -> forallb validate_glyph gs = true -> zlen glyf < 4294967296 ->
+  exists chunks es,
+    Forall2 (fun g c => write_glyph 0 g = Some c) gs chunks
+    /\ glyf = concat chunks /\ loca = 0 :: offsets_from 0 chunks /\ long = loca_is_long loca
+    /\ loca_read (loca_bytes loca) long = Some es
+    /\ forall i c, nth_error chunks i = Some c ->
+         get_glyf_slice es long glyf (Z.of_nat i) = if zlen c =? 0 then ROk None else ROk (Some c).
+Proof. exact builder_glyph_i. Qed.
+(* per coordinate the writer's form represents the delta and no representing form is shorter *)
+Theorem c09_delta_choice_shortest : forall v s m form, i16 v -> form_decodes form v ->
+  form_decodes (snd (flag_and_delta v s m)) v /\ csize (snd (flag_and_delta v s m)) <= csize form.
+Proof. exact delta_choice_shortest. Qed.
+(* a run of k identical flags is written in 2*(k/256) + min 2 (k mod 256) bytes, for every k *)
+Theorem c09_flags_rle_run_length : forall f k, flag_ok f -> (0 < k)%nat ->
+  zlen (bytes_of (rle (repeat f k))) = 2 * (Z.of_nat k / 256) + Z.min 2 (Z.of_nat k mod 256).
+Proof. exact flags_rle_run_length. Qed.
+
+(* one composite component (every anchor form: i8/i16 offsets, u8/u16 point numbers; every transform
+   form: identity, scale, x/y scale, 2x2; every user-flag combination; glyph id) is read back by
+   ComponentIter exactly, and iteration continues iff MORE_COMPONENTS was set *)
+Theorem c09_component_roundtrip : forall c extra rest k, comp_ok c -> In extra [0; 32; 256] ->
+  let F := Z.lor (comp_flags c) extra in
+  read_comps (S k) (comp_bytes c extra ++ rest)
+  = (F, c_gid c, c_anchor c, c_tr c) :: (if has extra MORE then read_comps k rest else [])
+  /\ (has F ROUND_XY, has F USE_MY_METRICS, has F SCALED_OFF, has F UNSCALED_OFF, has F OVERLAP) = c_uflags c.
+Proof. exact comp_roundtrip. Qed.
+(* FULL STATEMENT (not proved in Coq, checked by correspondence + oracle): for every composite glyph g,
+     read_glyph (write_composite 0 g) = RComposite bbox (exp_comps comps lastf) (instructions).
+   PROVED PART: the component list of any non-empty composite is read back exactly by ComponentIter,
+   which stops before the instruction bytes / padding that follow.  Missing: the 10-byte header/bbox
+   and count_and_instructions (ComponentGlyphIdFlagsIter) parts. *)
+Theorem c09_composite_components_roundtrip_partial : forall cs c lastf tail k,
+  Forall comp_ok (c :: cs) -> In lastf [0; 256] -> (length (c :: cs) <= k)%nat ->
+  read_comps k (comps_bytes (c :: cs) lastf ++ tail) = exp_comps (c :: cs) lastf.
+Proof. exact comps_roundtrip. Qed.
+
 Print Assumptions c09_flags_rle_roundtrip.
 Print Assumptions c09_deltas_accepted.
 Print Assumptions c09_coords_roundtrip.
 Print Assumptions c09_simple_roundtrip.
 Print Assumptions c09_pad_even.
+Print Assumptions c09_loca_short_exact.
+Print Assumptions c09_loca_roundtrip.
+Print Assumptions c09_builder_glyph_i.
+Print Assumptions c09_delta_choice_shortest.
+Print Assumptions c09_flags_rle_run_length.
+Print Assumptions c09_component_roundtrip.
+Print Assumptions c09_composite_components_roundtrip_partial.
